@@ -169,7 +169,9 @@ pub fn check_value(v: u64, ci: usize, rep: &mut Report) {
         for e in En::BOTH {
             let ww = WWord::ALL[(ci + big as usize) % 5];
             let mut h = make_writer(WCfg { e, w: ww, be: WBackend::VecOwned });
-            let lead = (ci % 3) as usize; // bytes before
+            // bytes before the code: also whole 64-bit words, so that the code starts on a word boundary
+            // of every reader, and the position is reached by skipping, seeking or reading
+            let lead = [0usize, 1, 2, 8, 16, 7, 9][ci % 7];
             for i in 0..lead {
                 let _ = guard(|| h.w.write_bits(0xC0 + i as u64, 8));
             }
@@ -192,9 +194,28 @@ pub fn check_value(v: u64, ci: usize, rep: &mut Report) {
             let mut img = bytes.ok().unwrap();
             img.resize(img.len().div_ceil(16) * 16 + 16, 0);
             let kind = RKind::ALL[(ci + e as usize) % 5];
-            let be = RBackend::ALL[ci % 8];
+            let be = RBackend::ALL[ci % RBackend::ALL.len()];
             let mut r = make_reader(RCfg { e, kind, be }, &img);
-            let _ = guard(|| r.r.skip_bits(8 * lead));
+            match (ci / 7) % 4 {
+                0 => {
+                    let _ = guard(|| r.r.skip_bits(8 * lead));
+                }
+                1 => {
+                    let _ = guard(|| r.r.set_bit_pos(8 * lead as u64).unwrap());
+                }
+                2 => {
+                    // decode something further on first, then come back
+                    let _ = guard(|| r.r.set_bit_pos(8 * (lead + model.len()) as u64).unwrap());
+                    let _ = guard(|| r.r.read_bits(8));
+                    let _ = guard(|| r.r.peek_bits(8));
+                    let _ = guard(|| r.r.set_bit_pos(8 * lead as u64).unwrap());
+                }
+                _ => {
+                    for _ in 0..lead {
+                        let _ = guard(|| r.r.read_bits(8));
+                    }
+                }
+            }
             let val = guard(|| r.r.read_code(CodeOp::Std(code)));
             let pos = guard(|| r.r.bit_pos().unwrap());
             rep.eval(1);
